@@ -61,13 +61,7 @@ def split(ops, cl, ml):
         if o.startswith(("CMP", "FIX ", "CRASH")):
             cur["verdicts"].append(m)
         if o.startswith("CRASH"):
-            if "RT" in cur["script"]:
-                cur["crash"] = True
-            else:
-                # a modifying call of the history itself aborted before anything was exported: C02's business, not an XML verdict
-                cur["known"].add("crash-in-modifying-call-before-export")
-                cur["verdicts"].append("KNOWN crash-in-modifying-call-before-export")
-                continue
+            cur["crash"] = True        # also when a modifying call of the history itself aborts before the export
         if o.startswith("KNOWN "):
             cur["known"].add(o[6:].strip())
             cur["verdicts"].append("KNOWN " + o[6:].strip())
@@ -212,29 +206,17 @@ def run_engine(tier, seed):
     shutil.rmtree(workdir, ignore_errors=True)
     hits = []
     if known_hits.get("support-section"):
-        hits.append("second export differs from the first only in <support/> elements when IMPORT_SUPPORT is not set (%d cases; "
+        hits.append("F56 second export differs from the first only in <support/> elements when IMPORT_SUPPORT is not set (%d cases; "
                     "compared with those elements removed)" % known_hits["support-section"])
     if known_hits.get("memory-child-sets"):
-        hits.append("memory object whose cpuset/complete_cpuset differ from its parent's is reloaded with the parent's sets "
+        hits.append("F55 memory object whose cpuset/complete_cpuset differ from its parent's is reloaded with the parent's sets "
                     "(%d cases; judged against the normalised original)" % known_hits["memory-child-sets"])
-    if known_hits.get("stale-gp-index-after-group-replacement"):
-        hits.append("distances / memattr targets and initiators keep the gp_index of a Group that was replaced by an equal inserted Group; the "
-                    "exporter writes the stale index and the importer drops the matrix / value (%d cases, not judged)" % known_hits["stale-gp-index-after-group-replacement"])
-    if known_hits.get("v2-unnamed-latency-distances"):
-        hits.append("v2-format export of a topology with an unnamed latency distances matrix: the importer calls strcmp(NULL, ...) "
-                    "(%d cases, not run)" % known_hits["v2-unnamed-latency-distances"])
-    if known_hits.get("original-object-with-partial-sets"):
-        hits.append("the original topology has an object with a cpuset but a NULL complete_cpuset (core defect after inserting equal "
-                    "dont_merge Groups); the exporter would crash on it (%d cases, not run)" % known_hits["original-object-with-partial-sets"])
     if known_hits.get("duplicate-memattr-initiators"):
-        hits.append("restrict clipped two memattr initiator cpusets of one target to the same set; the importer merges the two values "
+        hits.append("F59 restrict clipped two memattr initiator cpusets of one target to the same set; the importer merges the two values "
                     "(%d cases, not judged)" % known_hits["duplicate-memattr-initiators"])
-    if known_hits.get("crash-in-modifying-call-before-export"):
-        hits.append("a modifying call of the generated history aborted inside hwloc before the export (e.g. restrict on an object with a "
-                    "NULL complete_cpuset left by equal dont_merge Groups); not an XML verdict (%d cases)" % known_hits["crash-in-modifying-call-before-export"])
-    if known_hits.get("original-fails-topology-check"):
-        hits.append("the original (after its history of modifying calls) does not pass hwloc_topology_check(): children or memory "
-                    "children out of order; not judged (%d cases)" % known_hits["original-fails-topology-check"])
+    for k in known_hits:
+        if k not in ("support-section", "memory-child-sets", "duplicate-memattr-initiators"):
+            hits.append("unlisted class %s (%d cases)" % (k, known_hits[k]))
     return {"evaluations": nunits + njudged, "distinct_nontrivial": len(distinct), "unit_ops": nunits, "roundtrip_cases": ncases,
             "judged_verdicts": njudged, "distribution": stats, "corpus_cases": ncorpus, "sources": nsrc, "known_hits": hits,
             "problems": problems, "samples": samples,
